@@ -5,11 +5,12 @@ OUT=$(mktemp -d /tmp/verif-ssx-XXXXXX)
 for s in "$@"; do echo "$s"; done > $OUT/list
 cat > $OUT/run.sh <<EOS
 #!/bin/sh
+export VERIF_BUILD_DIR=/verif/.build/slot\$SLOT
 p=\$(echo \$1 | cut -c1-3)
 /verif/tryall_scratch.sh /verif/seeded/\$1/patch.diff \$p > $OUT/\$1.txt 2>&1
 EOS
 chmod +x $OUT/run.sh
-cat $OUT/list | xargs -P $J -n 1 $OUT/run.sh
+cat $OUT/list | xargs --process-slot-var=SLOT -P $J -n 1 $OUT/run.sh
 n=0; m=0
 for s in "$@"; do
   n=$((n+1))
